@@ -649,6 +649,10 @@ class NumericWaveform(ABC, Generic[_TRaw, _TScaled]):
 
         new_timing = self._timing._append_timestamps(timestamps)
 
+        if np.may_share_memory(array, self._data):
+            # The array views this waveform's own buffer, which may be reallocated below.
+            array = array.copy()
+
         self._increase_capacity(len(array))
         self._set_timing(new_timing)
 
@@ -675,7 +679,9 @@ class NumericWaveform(ABC, Generic[_TRaw, _TScaled]):
         # Take the samples to append before this waveform changes: it may appear in its own list
         # of sources, and its sample_count and buffer change below.
         chunks = [
-            waveform.raw_data.copy() if waveform is self else waveform.raw_data
+            waveform.raw_data.copy()
+            if (waveform is self or np.may_share_memory(waveform._data, self._data))
+            else waveform.raw_data
             for waveform in waveforms
         ]
 
